@@ -111,6 +111,7 @@ def validate_joe_trace(ctx, trace, tag):
     The identities are the driver's fixed universe (given as explicit constants: TLC would otherwise
     re-evaluate them from the trace in every state)."""
     consts = {"Subs": set(SUBS), "Pubs": set(PUBS), "Downs": set(DOWNS), "None": NONE, "PubAfter": pub_after(), "WithReplayer": True}
+    tag = re.sub(r"[^A-Za-z0-9_]", "_", tag)
     d = core.write_mc(ctx, "JT_" + tag, "JoeTrace", consts, spec="Spec", invariants=TRACE_INVS, constraint="HighWater", postcondition="Accepted")
     env = {"TRACE": trace, "JAVA_TOOL_OPTIONS": "-Dtlc2.tool.queue.IStateQueue=StateDeque"}
     r = core.run_tlc(ctx, d, "JT_" + tag, workers=1, timeout=1800, env=env)
